@@ -2905,3 +2905,86 @@ func (s *applySite) expand(x fnVal) []fnVal {
 	walk(x, 0)
 	return out
 }
+
+// ------------------------------------------------------------------------------ R19l
+
+// hexIdentitiesFixedWidth: a string a function of lib/appmanifest returns must not come out of
+// strconv.FormatUint / FormatInt / Itoa, or of a Sprintf whose verb prints an integer without a
+// zero-padded width: such a formatter drops leading zeros, so the 16-digit publicKeyToken (the low
+// 64 bits of a hash) comes out shorter for one key in sixteen, and the identity written under
+// signature no longer names the key for any other implementation.
+func hexIdentitiesFixedWidth(p *Prog) (out []gFinding) {
+	for _, fn := range append(p.pkgFuncs("lib/appmanifest"), p.pkgFuncs("hexid")...) { // hexid: the control package
+		res := fn.Signature.Results()
+		for i := 0; i < res.Len(); i++ {
+			if bt, ok := res.At(i).Type().Underlying().(*types.Basic); !ok || bt.Kind() != types.String {
+				continue
+			}
+			for _, r := range returnsOf(fn) {
+				v := retVal(r, i)
+				var bad ssa.CallInstruction
+				dependsOn(v, func(x ssa.Value) bool {
+					call, ok := x.(*ssa.Call)
+					if !ok {
+						return false
+					}
+					switch p.calleeName(call.Common()) {
+					case "strconv.FormatUint", "strconv.FormatInt", "strconv.Itoa":
+						bad = call
+						return true
+					case "fmt.Sprintf":
+						if f, ok := constString(call.Call.Args[0]); ok && variableWidthIntVerb(f) && sprintfHasIntArg(call) {
+							bad = call
+							return true
+						}
+					}
+					return false
+				})
+				if bad != nil {
+					out = append(out, gFinding{Key: p.FName(fn) + " returns a fixed-width string", Pos: p.Pos(bad.Pos()), OK: false,
+						Detail: "the string " + p.FName(fn) + " returns is produced by a variable-width integer formatter: leading zeros are dropped, so a token that begins with a zero digit comes out shorter than the 16 hex digits every consumer of the manifest identity expects"})
+				}
+			}
+		}
+	}
+	return out
+}
+
+// variableWidthIntVerb: the format has a %x / %X / %d without a zero-padded width.
+func variableWidthIntVerb(f string) bool {
+	for i := 0; i+1 < len(f); i++ {
+		if f[i] != '%' {
+			continue
+		}
+		j := i + 1
+		flags := ""
+		for j < len(f) && strings.ContainsRune("0123456789+-# .", rune(f[j])) {
+			flags += string(f[j])
+			j++
+		}
+		if j < len(f) && (f[j] == 'x' || f[j] == 'X' || f[j] == 'd') {
+			if !(strings.HasPrefix(flags, "0") && len(flags) > 1) {
+				return true
+			}
+		}
+		i = j
+	}
+	return false
+}
+
+// sprintfHasIntArg: one of the variadic arguments boxed for Sprintf is an integer.
+func sprintfHasIntArg(call *ssa.Call) bool {
+	found := false
+	for _, a := range call.Call.Args[1:] {
+		dependsOn(a, func(x ssa.Value) bool {
+			if mi, ok := x.(*ssa.MakeInterface); ok {
+				if bt, ok := mi.X.Type().Underlying().(*types.Basic); ok && bt.Info()&types.IsInteger != 0 {
+					found = true
+					return true
+				}
+			}
+			return false
+		})
+	}
+	return found
+}
